@@ -75,8 +75,17 @@ class Target(object):
                                'tuple(sorted(kw.items()))' if spec['kw'] else '')
         if rmode == 'str':
             ret = 'repr(%s)' % ret
+        elif rmode == 'falsy':
+            # a third of the bindings give None / 0 / '' / False (cf. gen.Probe)
+            ret = '_FALSY(%s)' % ret
         seen = '(%s)' % ''.join(n + ', ' for n in names + (['kw'] if spec['kw'] else []))
-        self.ns = {'__name__': '__kvprobe__', '_LOG': [], '_SEEN': [], '_D': D}
+        def _falsy(r):
+            try:
+                h = sum(ord(c) for c in repr(r)) % 9
+            except Exception:
+                return r
+            return {0: None, 1: 0, 2: '', 3: False}.get(h, r)
+        self.ns = {'__name__': '__kvprobe__', '_LOG': [], '_SEEN': [], '_D': D, '_FALSY': _falsy}
         if kind == 'method':
             src = ('class C(object):\n'
                    '    def m(%s):\n'
